@@ -1030,8 +1030,14 @@ async fn outstation_responses(a: &ShardArgs, idx: u64) {
             }
             5 => ra::B::request(*r.pick(&[ra::F_SELECT, ra::F_DIRECT_OPERATE]), seq)
                 .raw(&{
-                    let n = r.range(1, 4) as usize;
-                    crate::verif::gen::control_objects(&mut r, n)
+                    if r.chance(1, 3) {
+                        // an echo that does not fit the solicited buffer: the truncated echo is still a well-formed fragment
+                        let n = r.range(1, 3) as usize;
+                        crate::verif::gen::control_objects_n(&mut r, n, 90)
+                    } else {
+                        let n = r.range(1, 4) as usize;
+                        crate::verif::gen::control_objects(&mut r, n)
+                    }
                 })
                 .done(),
             6 => ra::B::request(ra::F_DELAY_MEASURE, seq).done(),
@@ -1048,6 +1054,13 @@ async fn outstation_responses(a: &ShardArgs, idx: u64) {
             let rx = sim.collect();
             let frags = check(a, &mut r, &ctx, &rx);
             time_provenance(a, idx, &frags, &written, &ctx);
+            if (rq[1] == ra::F_SELECT || rq[1] == ra::F_DIRECT_OPERATE) && rq.len() + 2 > oc.sol_tx {
+                for f in &frags {
+                    if f[1] == ra::F_RESPONSE && f.len() < rq.len() + 2 && f.len() > 4 {
+                        out::count("A2_truncated_control_echo_checked", 1);
+                    }
+                }
+            }
             let mut progressed = false;
             for f in frags {
                 if f[0] & ra::CON != 0 {
